@@ -28,8 +28,10 @@ cls(
           # taken on, whatever becomes of them)
           ("H2.rely.requests-monotone", "self.keep_alive_requests >= old(self.keep_alive_requests)", "C18")],
     task_rely={
-        # only the reader counts requests
-        "reader": [("H2.rely[reader].count", "self.keep_alive_requests == old(self.keep_alive_requests)", "C18")],
+        # only the reader registers client-initiated (odd) streams; application tasks register pushed
+        # (even) ones.  (The request counter is also bumped by pushes, so the reader only relies on
+        # its being monotone.)
+        "reader": [("H2.rely[reader].client-streams", "forall_int('k', implies(k % 2 == 1 and in_map(self.streams, k), in_map(old(self.streams), k)))", "C03")],
         # only the send task removes send buffers
         "send": [("H2.rely[send].buffers-stay", "forall_int('k', implies(in_map(old(self.stream_buffers), k), in_map(self.stream_buffers, k)))", "C04,C09")],
     },
@@ -72,9 +74,20 @@ fn(H2 + ".send_task", params={}, task="send",
    props=("C04", "C09"))
 
 fn(H2 + ".handle", params={"event": _ev.IO_EVENTS}, task="reader",
-   loops={0: {"invariant": [("handle.loop.closed", "self.closed")]}},
+   loops={0: {"invariant": [("handle.loop.closed", "self.closed"),
+                            # the streams still registered are among those not yet closed by this loop
+                            # (only the reader task -- this one -- registers request streams)
+                            ("C03.h2.close-all.loop", "forall_int('k', implies(k % 2 == 1 and in_map(self.streams, k), in_map(old(self.streams), k) and key_pos(_it, k) >= _i))", "C03")]}},
    ensures=[
        ("C03.h2.closed-flag", "implies(isinstance(event, Closed), self.closed)", "C03,C07"),
+       # C03 (per HTTP/2 stream): when the connection is reported closed -- however often -- every
+       # stream that exists is closed (each gets its StreamClosed, hence its disconnect)
+       ("C03.h2.close-all", "implies(isinstance(event, Closed), forall_int('k', implies(k % 2 == 1, not in_map(self.streams, k))))", "C03"),
+       # C08 "whenever ... the connection closes, every waiting send returns promptly": the send task
+       # stops when the connection is closed, so nothing would ever release a sender blocked in
+       # push()/drain() on a buffer that stays registered: when Closed has been handled no send
+       # buffer is left (each was closed -- which releases its waiters -- and dropped)
+       ("C08.release.on-close", "implies(isinstance(event, Closed), forall_int('k', not in_map(self.stream_buffers, k)))", "C08,C07"),
        # C01.h2.feed: what was read is what h2 gets, once
        ("C01.h2.feed", "implies(isinstance(event, RawData), n_emitted('h2_in') == 1 and emitted('h2_in')[0] == event.data)", "C01,C10"),
        # C04: a protocol violation ends the connection: what h2 queued (GOAWAY) is flushed, then Closed
@@ -102,6 +115,8 @@ fn(H2 + ".stream_send", params={"event": _ev.STREAM_EVENTS}, task="app",
         "count_calls('StreamBuffer.push') == 1 and call_args('StreamBuffer.push')[1] == event.data)", "C02,C10"),
        ("C02.h2.end", "implies(isinstance(event, (EndBody, EndData)) and in_map(old(self.stream_buffers), event.stream_id), count_calls('StreamBuffer.set_complete') == 1)", "C02"),
        ("C02.h2.trailers", "implies(isinstance(event, Trailers) and n_emitted('h2') == 1, emitted('h2')[0][0] == 'send_headers' and emitted('h2')[0][1] == event.stream_id and emitted('h2')[0][2] == event.headers)", "C02"),
+       # C07 (HTTP/2): the end of a stream is reported together with the connection's idleness
+       ("C07.h2.idle-report", "implies(isinstance(event, StreamClosed) and n_emitted('h2_refused') == 0, last_is('sent', Updated))", "C07"),
        ("C05.h2.reset", "implies(isinstance(event, StreamClosed), not h2_sendable(self.connection, event.stream_id) "
         "or (in_map(self.stream_buffers, event.stream_id) and map_val(self.stream_buffers, event.stream_id).g_end_requested))", "C05"),
    ],
@@ -119,6 +134,10 @@ fn(H2 + "._handle_events", params={"events": "obj pyvc:H2Events"}, task="reader"
         "trace_any('calls', 'c', (c[0] == 'HTTPStream.handle' or c[0] == 'WSStream.handle') and isinstance(c[2], Body) and c[2].stream_id == event.stream_id and c[2].data == event.data))", "C01,C10"),
        ("C01.h2.end", "implies(isinstance(event, h2.events.StreamEnded) and in_map(self.streams, event.stream_id), "
         "trace_any('calls', 'c', (c[0] == 'HTTPStream.handle' or c[0] == 'WSStream.handle') and isinstance(c[2], EndBody) and c[2].stream_id == event.stream_id))", "C01"),
+       # C07 (HTTP/2): every request that is taken on reports the connection busy, whatever the
+       # other streams are doing (the server stops the keep-alive timer on that report)
+       ("C07.h2.busy", "implies(isinstance(event, h2.events.RequestReceived) and count_calls('H2Protocol._create_stream') >= 1, "
+        "trace_any('sent', 'x', isinstance(x, Updated) and x.idle == False))", "C07"),
        # C18.ka.h2: one more than keep_alive_max_requests are served, then the peer is told to go away
        ("C18.ka.h2", "implies(isinstance(event, h2.events.RequestReceived) and self.keep_alive_requests > self.config.keep_alive_max_requests, trace_any('h2', 'x', x[0] == 'close_connection'))", "C18"),
        ("C18.ka.h2.not-early", "implies(isinstance(event, h2.events.RequestReceived) and self.keep_alive_requests <= self.config.keep_alive_max_requests, not trace_any('h2', 'x', x[0] == 'close_connection'))", "C18"),
@@ -144,7 +163,7 @@ fn(H2 + "._create_stream", params={"request": "obj h2.events:RequestReceived"}, 
        ("C01.h2.request.wiring", "same(call_args('Stream.handle')[0].app, self.app) and same(call_args('Stream.handle')[0].client, self.client) and same(call_args('Stream.handle')[0].server, self.server) "
         "and call_args('Stream.handle')[0].stream_id == request.stream_id "
         "and call_args('Stream.handle')[0].scheme == (('wss' if self.ssl else 'ws') if isinstance(call_args('Stream.handle')[0], WSStream) else ('https' if self.ssl else 'http'))", "C01"),
-       ("C18.ka.h2.counted", "self.keep_alive_requests == old(self.keep_alive_requests) + 1", "C18")],
+       ("C18.ka.h2.counted", "self.keep_alive_requests >= old(self.keep_alive_requests) + 1", "C18")],
    props=("C04", "C01", "C18"))
 
 fn(H2 + "._window_updated", params={"stream_id": "opt int"}, task="reader",
@@ -161,7 +180,8 @@ fn(H2 + "._window_updated", params={"stream_id": "opt int"}, task="reader",
    ],
    props=("C04", "C09"))
 fn(H2 + "._priority_updated", params={"event": "obj h2.events:PriorityUpdated"}, task="reader", props=("C04", "C09"))
-fn(H2 + "._close_stream", params={"stream_id": "int"}, props=("C04", "C03"))
+# inlined at its call sites (a pop and two awaits): what it does is judged in the task that calls it
+fn(H2 + "._close_stream", params={"stream_id": "int"}, inline=True, props=("C04", "C03"))
 # raised into stream_send, which swallows the ProtocolError family (stream ids exhausted)
 fn(H2 + "._create_server_push", params={"stream_id": "int", "path": "bstr", "headers": "hdrs"}, task="app",
    raises={"h2.ProtocolError": None}, props=("C04",))
